@@ -177,7 +177,7 @@ def r_add_bad_name(api):
             # the name of the relocation directory is in use by a directory of the user
             if not cfg.rr or cfg.level == 4 or api != 'add_directory' or m.relocation_active():
                 return None
-            if '/RR_MOVED' not in m.ns['iso']:
+            if '/RR_MOVED' not in m.ns['iso'] and not any(n.rr_name == 'rr_moved' and p.count('/') == 1 for p, n in m.ns['iso'].items()):
                 return None
             deep = [d for d in m.dirs('iso') if m.depth(d) == 7]
             if not deep:
@@ -671,7 +671,14 @@ def run_case(i, seed, tier):
     else:
         h = common.History(cfg, cs, rng.choice(['std', 'grow', 'churn']), max_size=3000, max_depth=7 if which == 'depth' else None)
         if which == 'reloc-name-taken':
-            h.apply({'op': 'add_directory', 'iso_path': '/RR_MOVED', 'rr_name': 'users-own'})
+            # (either of its two names: the ISO9660 one, or only the Rock Ridge one)
+            x_ = rng.random()
+            if x_ < 0.4:
+                h.apply({'op': 'add_directory', 'iso_path': '/RR_MOVED', 'rr_name': 'users-own'})
+            elif x_ < 0.7:
+                h.apply({'op': 'add_directory', 'iso_path': '/USERSOWN', 'rr_name': 'rr_moved'})
+            else:
+                h.apply({'op': 'add_fp', 'cid': h.gen.new_cid(), 'length': 12, 'iso_path': '/USERSOWN.;1', 'rr_name': 'rr_moved'})
         if which in ('depth', 'rr-too-long-reloc', 'iso-dup-reloc', 'reloc-name-taken'):
             p = ''
             for d in range(7):
